@@ -222,31 +222,51 @@ def request_params(route) -> dict[str, str]:
 
 
 def translate_has_access() -> str:
-    """`auth.has_access` as a Lean `AccExpr` term (see OPM.Access.AccExpr); anything outside the small expression
-    language becomes `.unknown`, which no theorem can be proved about."""
+    """`auth.has_access` as a Lean `AccExpr` term (see OPM.Access.AccExpr).  Covered: a straight-line body of
+    assignments, `if c: return a` (with or without else) and a final `return e`, over the sets required / user /
+    their intersection (`a & b`, `a.intersection(b)`, `set.intersection(a, b)`, either order) with `len(s) == 0`,
+    `len(s) > 0|!= 0|>= 1`, `bool(s)`, truthiness of a set, `not`, `and`, `or`, `a if c else b`, `True`/`False`,
+    `any(r in A for r in B)`, `A.isdisjoint(B)`.  Anything else becomes `.unknown`, about which nothing is provable."""
     from openpectus.aggregator.routers import auth
     tree = _fn_ast(auth.has_access)
     if not isinstance(tree, ast.FunctionDef) or len(tree.args.args) != 2:
         return '(.unknown "signature")'
     obj, user = tree.args.args[0].arg, tree.args.args[1].arg
-    env: dict[str, str] = {user: ".user"}
-    body = [st for st in tree.body if not (isinstance(st, ast.Expr) and isinstance(st.value, ast.Constant))]
+    sets: dict[str, str] = {user: "user"}        # variable -> req | user | both
+    bools: dict[str, str] = {}                   # variable -> AccExpr term
+
+    def unknown(node) -> str:
+        return f"(.unknown {_lean_str(ast.unparse(node)[:120])})"
 
     def setx(e) -> str | None:
-        if isinstance(e, ast.Name) and e.id in env:
-            return env[e.id]
+        if isinstance(e, ast.Name):
+            return sets.get(e.id)
         if isinstance(e, ast.Attribute) and isinstance(e.value, ast.Name) and e.value.id == obj and e.attr == "required_roles":
-            return ".req"
-        if isinstance(e, ast.Call) and isinstance(e.func, ast.Name) and e.func.id in ("set", "list", "frozenset") \
+            return "req"
+        if isinstance(e, ast.Call) and isinstance(e.func, ast.Name) and e.func.id in ("set", "list", "frozenset", "tuple", "sorted") \
                 and len(e.args) == 1 and not e.keywords:
             return setx(e.args[0])
-        if isinstance(e, ast.BinOp) and isinstance(e.op, (ast.BitAnd, ast.BitOr)):
-            a, b = setx(e.left), setx(e.right)
-            if a and b:
-                return f"(.{'inter' if isinstance(e.op, ast.BitAnd) else 'union'} {a} {b})"
+        pair = None
+        if isinstance(e, ast.BinOp) and isinstance(e.op, ast.BitAnd):
+            pair = (e.left, e.right)
+        elif isinstance(e, ast.Call) and isinstance(e.func, ast.Attribute) and e.func.attr == "intersection" and not e.keywords:
+            if isinstance(e.func.value, ast.Name) and e.func.value.id in ("set", "frozenset") and len(e.args) == 2:
+                pair = (e.args[0], e.args[1])
+            elif len(e.args) == 1:
+                pair = (e.func.value, e.args[0])
+        if pair:
+            a, b = setx(pair[0]), setx(pair[1])
+            if {a, b} == {"req", "user"} or (a == "both" and b in ("req", "user", "both")) or (b == "both" and a in ("req", "user")):
+                return "both"
+            if a is not None and a == b:
+                return a
         return None
 
     def boolx(e) -> str:
+        if isinstance(e, ast.Constant) and isinstance(e.value, bool):
+            return f"(.const {'true' if e.value else 'false'})"
+        if isinstance(e, ast.Name) and e.id in bools:
+            return bools[e.id]
         if isinstance(e, ast.BoolOp):
             parts = [boolx(v) for v in e.values]
             op = "or" if isinstance(e.op, ast.Or) else "and"
@@ -256,25 +276,178 @@ def translate_has_access() -> str:
             return out
         if isinstance(e, ast.UnaryOp) and isinstance(e.op, ast.Not):
             return f"(.not {boolx(e.operand)})"
+        if isinstance(e, ast.IfExp):
+            c, a, b = boolx(e.test), boolx(e.body), boolx(e.orelse)
+            return f"(.or (.and {c} {a}) (.and (.not {c}) {b}))"
+        if isinstance(e, ast.Call) and isinstance(e.func, ast.Name) and e.func.id == "bool" and len(e.args) == 1:
+            return boolx(e.args[0])
         if isinstance(e, ast.Compare) and len(e.ops) == 1 and isinstance(e.left, ast.Call) and \
                 isinstance(e.left.func, ast.Name) and e.left.func.id == "len" and len(e.left.args) == 1 and \
-                isinstance(e.comparators[0], ast.Constant) and e.comparators[0].value == 0:
-            sx = setx(e.left.args[0])
+                isinstance(e.comparators[0], ast.Constant) and type(e.comparators[0].value) is int:
+            sx, k, op = setx(e.left.args[0]), e.comparators[0].value, e.ops[0]
             if sx:
-                if isinstance(e.ops[0], ast.Eq):
-                    return f"(.isEmpty {sx})"
-                if isinstance(e.ops[0], (ast.Gt, ast.NotEq)):
-                    return f"(.nonEmpty {sx})"
-        return f"(.unknown {_lean_str(ast.unparse(e)[:120])})"
-    for st in body[:-1]:
-        if isinstance(st, ast.Assign) and len(st.targets) == 1 and isinstance(st.targets[0], ast.Name) and setx(st.value):
-            env[st.targets[0].id] = setx(st.value)
+                if (k == 0 and isinstance(op, (ast.Eq, ast.LtE))) or (k == 1 and isinstance(op, ast.Lt)):
+                    return f"(.isEmpty .{sx})"
+                if (k == 0 and isinstance(op, (ast.Gt, ast.NotEq))) or (k == 1 and isinstance(op, ast.GtE)):
+                    return f"(.nonEmpty .{sx})"
+        if isinstance(e, ast.Call) and isinstance(e.func, ast.Attribute) and e.func.attr == "isdisjoint" and len(e.args) == 1:
+            if {setx(e.func.value), setx(e.args[0])} == {"req", "user"}:
+                return "(.isEmpty .both)"
+        if isinstance(e, ast.Call) and isinstance(e.func, ast.Name) and e.func.id == "any" and len(e.args) == 1 and \
+                isinstance(e.args[0], (ast.GeneratorExp, ast.ListComp)) and len(e.args[0].generators) == 1:
+            g = e.args[0].generators[0]
+            el = e.args[0].elt
+            if not g.ifs and isinstance(g.target, ast.Name) and isinstance(el, ast.Compare) and len(el.ops) == 1 and \
+                    isinstance(el.ops[0], ast.In) and isinstance(el.left, ast.Name) and el.left.id == g.target.id:
+                if {setx(g.iter), setx(el.comparators[0])} == {"req", "user"}:
+                    return "(.nonEmpty .both)"
+        sx = setx(e)                     # truthiness of a set
+        if sx:
+            return f"(.nonEmpty .{sx})"
+        return unknown(e)
+
+    def block(stmts) -> str:
+        """value returned by a statement list that ends in a return on every path"""
+        if not stmts:
+            return '(.unknown "falls off the end")'
+        st, rest = stmts[0], stmts[1:]
+        if isinstance(st, ast.Expr) and isinstance(st.value, ast.Constant):       # docstring
+            return block(rest)
+        if isinstance(st, ast.Return):
+            return boolx(st.value) if st.value is not None else '(.unknown "bare return")'
+        if isinstance(st, (ast.Assign, ast.AnnAssign)):
+            targets = st.targets if isinstance(st, ast.Assign) else [st.target]
+            if len(targets) == 1 and isinstance(targets[0], ast.Name) and st.value is not None:
+                name = targets[0].id
+                sx = setx(st.value)
+                if sx:
+                    sets[name] = sx
+                    bools.pop(name, None)
+                else:
+                    bools[name] = boolx(st.value)
+                    sets.pop(name, None)
+                return block(rest)
+            return unknown(st)
+        if isinstance(st, ast.If):
+            c = boolx(st.test)
+            saved = (dict(sets), dict(bools))
+            a = block(st.body + ([] if _returns(st.body) else rest))
+            sets.clear(); sets.update(saved[0]); bools.clear(); bools.update(saved[1])
+            b = block((st.orelse + ([] if _returns(st.orelse) else rest)) if st.orelse else rest)
+            return f"(.or (.and {c} {a}) (.and (.not {c}) {b}))"
+        return unknown(st)
+
+    def _returns(stmts) -> bool:
+        return bool(stmts) and isinstance(stmts[-1], ast.Return)
+    return block(tree.body)
+
+
+LISTING_SOURCES = ("get_all_registered_engine_data", "get_recent_engines", "get_all")
+ID_ATTRS = ("engine_id", "run_id", "id")
+
+
+def listing_analysis(fn, listed_params=(), depth: int = 0) -> dict:
+    """How a function treats the collections it lists (all registered units / recent engines / recent runs):
+    filtered = iterations whose elements pass `has_access(x, user_roles)` (loop with `if not has_access: continue`,
+    loop body under `if has_access`, comprehension / generator with has_access in an `if` clause, `filter(lambda x:
+    has_access(x, user_roles), …)`, a same-module helper that receives the collection and does one of these);
+    neutral = iterations that only project ids; unfiltered = everything else."""
+    out = {"filtered": 0, "unfiltered": 0, "has_access": False}
+    tree = _fn_ast(fn)
+    if not isinstance(tree, (ast.FunctionDef, ast.AsyncFunctionDef)) or depth > 2:
+        return out
+    mod = inspect.getmodule(fn)
+    out["has_access"] = any(isinstance(n, ast.Call) and isinstance(n.func, ast.Name) and n.func.id == "has_access"
+                            for n in ast.walk(tree))
+    listed = set(listed_params)
+
+    def is_source(e) -> bool:
+        return isinstance(e, ast.Call) and isinstance(e.func, ast.Attribute) and e.func.attr in LISTING_SOURCES
+
+    def is_listed(e) -> bool:
+        if isinstance(e, ast.Name):
+            return e.id in listed
+        if is_source(e):
+            return True
+        if isinstance(e, ast.Call) and isinstance(e.func, ast.Name) and e.func.id in ("list", "tuple", "sorted", "iter", "reversed") \
+                and e.args:
+            return is_listed(e.args[0])
+        return False
+    changed = True
+    while changed:
+        changed = False
+        for n in ast.walk(tree):
+            if isinstance(n, ast.Assign) and is_listed(n.value):
+                for t in n.targets:
+                    if isinstance(t, ast.Name) and t.id not in listed:
+                        listed.add(t.id)
+                        changed = True
+
+    def conj(e):
+        if isinstance(e, ast.BoolOp) and isinstance(e.op, ast.And):
+            for v in e.values:
+                yield from conj(v)
         else:
-            return f"(.unknown {_lean_str(ast.unparse(st)[:120])})"
-    last = body[-1] if body else None
-    if not isinstance(last, ast.Return) or last.value is None:
-        return '(.unknown "no return")'
-    return boolx(last.value)
+            yield e
+
+    def checks(e, var: str) -> bool:
+        return any(isinstance(c, ast.Call) and _is_has_access_call(c) and isinstance(c.args[0], ast.Name) and
+                   c.args[0].id == var for c in conj(e))
+
+    def only_ids(e, var: str) -> bool:
+        """the expression uses `var` only as var.engine_id / var.run_id / var.id"""
+        uses = [n for n in ast.walk(e) if isinstance(n, ast.Name) and n.id == var]
+        attrs = [n for n in ast.walk(e) if isinstance(n, ast.Attribute) and isinstance(n.value, ast.Name) and
+                 n.value.id == var and n.attr in ID_ATTRS]
+        return len(uses) == len(attrs)
+    for n in ast.walk(tree):
+        if isinstance(n, (ast.For, ast.AsyncFor)) and is_listed(n.iter) and isinstance(n.target, ast.Name):
+            v = n.target.id
+            first = n.body[0] if n.body else None
+            if isinstance(first, ast.If) and isinstance(first.test, ast.UnaryOp) and isinstance(first.test.op, ast.Not) \
+                    and checks(first.test.operand, v) and len(first.body) == 1 and isinstance(first.body[0], ast.Continue):
+                out["filtered"] += 1
+            elif len(n.body) == 1 and isinstance(first, ast.If) and checks(first.test, v) and not first.orelse:
+                out["filtered"] += 1
+            elif all(only_ids(st, v) for st in n.body):
+                pass
+            else:
+                out["unfiltered"] += 1
+        elif isinstance(n, (ast.ListComp, ast.SetComp, ast.GeneratorExp, ast.DictComp)):
+            for g in n.generators:
+                if is_listed(g.iter) and isinstance(g.target, ast.Name):
+                    v = g.target.id
+                    elts = [n.key, n.value] if isinstance(n, ast.DictComp) else [n.elt]
+                    if any(checks(c, v) for c in g.ifs):
+                        out["filtered"] += 1
+                    elif all(only_ids(e, v) for e in elts + list(g.ifs)):
+                        pass
+                    else:
+                        out["unfiltered"] += 1
+        elif isinstance(n, ast.Call) and isinstance(n.func, ast.Name) and n.func.id in ("filter", "map") and len(n.args) >= 2 \
+                and is_listed(n.args[1]):
+            lam = n.args[0]
+            if n.func.id == "filter" and isinstance(lam, ast.Lambda) and len(lam.args.args) == 1 and \
+                    checks(lam.body, lam.args.args[0].arg):
+                out["filtered"] += 1
+            else:
+                out["unfiltered"] += 1
+        elif isinstance(n, ast.Call) and isinstance(n.func, ast.Name):
+            callee = getattr(mod, n.func.id, None)
+            if inspect.isfunction(callee) and inspect.getmodule(callee) is mod and callee is not fn:
+                cparams = list(inspect.signature(callee).parameters)
+                bound = list(zip(cparams, n.args)) + [(k.arg, k.value) for k in n.keywords if k.arg]
+                lp = [p for p, a in bound if is_listed(a)]
+                if lp:
+                    sub = listing_analysis(callee, lp, depth + 1)
+                    out["filtered"] += sub["filtered"]
+                    out["unfiltered"] += sub["unfiltered"]
+                    out["has_access"] = out["has_access"] or sub["has_access"]
+                    if not sub["filtered"] and not sub["unfiltered"]:
+                        out["unfiltered"] += 1          # the collection disappears into a helper we cannot read
+        elif isinstance(n, ast.Return) and n.value is not None and is_listed(n.value):
+            out["unfiltered"] += 1
+    return out
 
 
 def classify(route) -> dict:
@@ -377,31 +550,15 @@ def classify(route) -> dict:
         row["target"] = "runs"
     else:
         return row
-    # every loop over a listed collection starts with `if not has_access(x, user_roles): continue`, or the
-    # collection is passed through filter(lambda x: has_access(x, user_roles), ...)
-    ok = True
-    seen = 0
-    for n in ast.walk(tree):
-        if isinstance(n, ast.For):
-            it = ast.unparse(n.iter)
-            if it in ("all_engine_data", "recent_engines") or "get_all" in it or "get_recent_engines" in it:
-                seen += 1
-                first = n.body[0] if n.body else None
-                good = (isinstance(first, ast.If) and isinstance(first.test, ast.UnaryOp) and
-                        isinstance(first.test.op, ast.Not) and isinstance(first.test.operand, ast.Call) and
-                        _is_has_access_call(first.test.operand) and
-                        isinstance(first.test.operand.args[0], ast.Name) and
-                        isinstance(n.target, ast.Name) and first.test.operand.args[0].id == n.target.id and
-                        len(first.body) == 1 and isinstance(first.body[0], ast.Continue))
-                ok = ok and good
-        if isinstance(n, ast.Call) and isinstance(n.func, ast.Name) and n.func.id == "filter" and len(n.args) == 2:
-            lam = n.args[0]
-            if isinstance(lam, ast.Lambda) and isinstance(lam.body, ast.Call) and _is_has_access_call(lam.body) and \
-                    isinstance(lam.body.args[0], ast.Name) and lam.body.args[0].id == lam.args.args[0].arg and \
-                    ".get_all()" in ast.unparse(n.args[1]):
-                seen += 1
+    la = listing_analysis(fn)
     expected = (1 if lists_units else 0) + (1 if lists_recent else 0) + (1 if lists_runs else 0)
-    row["guard"] = "filter" if (ok and seen >= expected) else "none"
+    if la["unfiltered"] == 0 and la["filtered"] >= expected:
+        row["guard"] = "filter"
+    elif la["unfiltered"] > 0 and not la["has_access"]:
+        row["guard"] = "none"               # nothing in the handler looks at roles: the listing shows everything
+    else:
+        row["guard"] = "unknown"            # has_access is used, but not in a form the translator can read
+        row["note"] = f"listing filter not recognised: {la}"
     return row
 
 
@@ -419,7 +576,7 @@ def generate() -> Path:
              "namespace OPM.Gen.Routes", "open OPM.Access", "", "def routes : List Route := ["]
     body = []
     for r in rows:
-        if r["guard"] == "unknown":
+        if r["guard"] == "unknown" and r["target"] == "unit":      # the LSP websocket special case
             r["guard"] = "none"
         body.append(f"  ⟨{_lean_str(r['path'])}, {_lean_str(r['method'])}, {_lean_str(r['handler'])}, "
                     f"{_lean_str(r['router'])}, .{r['target']}, .{r['guard']}, "
